@@ -405,6 +405,7 @@ def run(ctx: lib.Ctx) -> None:
     opcode_vectors(ctx)
     import c01_hash
     c01_hash.run(ctx)
+    c01_hash.lambda_signatures(ctx)
 
 
 def opcode_vectors(ctx: lib.Ctx) -> None:
